@@ -292,6 +292,9 @@ def gen_ops(rng, root, env, n, profile="mixed", bad=0.3):
 
             op["x"] = ival()
             op["as_config"] = item is not None and item["kind"] != "field" and rng.random() < 0.4
+            if op["as_config"] and rng.random() < 0.7:
+                # every value fine on its own, the whole item possibly incomplete (required fields left out)
+                op["x"] = gen.tree_for(rng, item, env, valid=True, partial=rng.choice([0.5, 0.9, 1.0]))
             op["xs"] = [ival("valid" if rng.random() < 0.8 else want) for _ in range(rng.choice([0, 1, 2, 3]))]
             op["iter"] = rng.choice(["list", "tuple", "iter", "gen"])
             op["a"], op["b"] = rng.choice([None, 0, 1, -1]), rng.choice([None, 0, 2, -1])
